@@ -16,25 +16,38 @@ looks like):
 
 Option sets are described by the dict that is handed to nunavut (`request`); the *effective* values are computed here
 from the documented defaults and the documented `std` shorthand of properties.yaml, never by asking nunavut.
+
+Free-form string options additionally get "near-collision" value families (white space only, case only, same
+characters in another order, same length, only the first / only the last character different), every ordered pair
+of which must be rejected like any other mismatch, and the value that the templates emit into the assertions is
+checked directly (bounded exhaustive): for every string over a small alphabet up to a length bound (+ every documented
+string value + the family values), handed to the real generator as additional language options, the number emitted on
+the support side equals the one on the type side, is pairwise distinct over distinct strings, and is the same in
+processes with different PYTHONHASHSEED; bool -> 0/1 and int -> itself as documented.
 """
 from __future__ import annotations
 
+import hashlib
 import itertools
+import json
 import os
 import pathlib
 import re
 import shutil
 import subprocess
+import sys
 import time
 import typing
+import zlib
 
-from vf.core import Ctx, HarnessError
+from vf.core import VERIF, Ctx, HarnessError
 
 # --------------------------------------------------------------------------------------------------------- DSDL
-# No floating point fields (omit_float_serialization_support=true is documented to break those), a constant, a
-# fixed array, a nested composite, a sealed union and a delimited type with variable-length arrays.
+# No floating point fields (omit_float_serialization_support=true is documented to break those), an integer constant,
+# a float constant (the only construct whose emitted code uses cast_format; the TUs use it), a fixed array, a nested
+# composite, a sealed union and a delimited type with variable-length arrays.
 DSDL = {
-    "ns/Inner.1.0.dsdl": "uint8 a\nint16[4] b\nuint8 K = 7\n@sealed\n",
+    "ns/Inner.1.0.dsdl": "uint8 a\nint16[4] b\nuint8 K = 7\nfloat32 F = 1.5\n@sealed\n",
     "ns/Outer.1.0.dsdl": "@union\nns.Inner.1.0 inner\nuint32[3] arr\nbool flag\n@sealed\n",
     "ns/Vla.1.0.dsdl": "ns.Inner.1.0[<=2] items\nuint8[<=5] octets\n@extent 1024\n",
 }
@@ -115,6 +128,48 @@ CETL_SINGLE_VALUES = {
 }
 
 
+# Helper macros given to every compilation so that cast formats naming a macro are valid code.
+CAST_MACROS = ["-DXCAST(t,v)=((t)(v))", "-Dxcast(t,v)=((t)(v))", "-DYCAST(t,v)=((t)(v))", "-DNNVG_A=)", "-DNNVG_B=)", "-DNNVG_a=)"]
+# Near-collision families of the free-form string options: every ordered pair inside one group must be rejected.
+C_CAST_FAMILY = [
+    [
+        C_CAST,
+        "(({type}){value})",  # white space removed
+        "(({type})  {value})",  # two spaces
+        "(({type})\t{value})",  # tab instead of space
+        " (({type}) {value})",  # leading
+        "(({type}) {value}) ",  # trailing
+        "( ({type}){value})",  # same characters as the default, space moved
+        C_CAST_ALT,  # same characters as "(({type}){value})" in another order
+        "XCAST({type}, {value})",
+        "xcast({type}, {value})",  # case only
+        "YCAST({type}, {value})",  # first character only
+        "(({type}) {value} NNVG_A",
+        "(({type}) {value} NNVG_B",  # last character only
+        "(({type}) {value} NNVG_a",  # case of the last character only
+    ]
+]
+CPP_CAST_FAMILY = [
+    [CPP_CAST, "static_cast< {type} >( {value} )", "static_cast<{type}> ({value})", "static_cast<{type}>({value}) "],
+    [C_CAST, "(({type}){value})", C_CAST_ALT],
+    ["XCAST({type}, {value})", "xcast({type}, {value})", "YCAST({type}, {value})"],
+    [CPP_CAST, "static_cast<{type}>({value} NNVG_A", "static_cast<{type}>({value} NNVG_B"],
+]
+# (option, groups) at the c++17-pmr profile (all emitted there)
+CPP_PROFILE_STRING_FAMILIES = [
+    ("variable_array_type_template", [[VECA, "std::vector<{TYPE},{REBIND_ALLOCATOR}>", "std::vector< {TYPE}, {REBIND_ALLOCATOR} >"]]),
+    ("allocator_type", [[PMR_ALLOC, " " + PMR_ALLOC]]),
+    ("allocator_include", [[MR_INC, MR_INC + " "]]),
+    ("variable_array_type_include", [[VEC_INC, VEC_INC + " "]]),
+    ("variable_array_type_constructor_args", [["{MAX_SIZE}", " {MAX_SIZE}", "{MAX_SIZE} "]]),
+]
+
+
+def _n(v: typing.Any) -> typing.Any:
+    """white-space-insensitive view of a string value (harness side only: which code the value stands for)"""
+    return "".join(v.split()) if isinstance(v, str) else v
+
+
 def std_number(std: str) -> int:
     return int(re.sub(r"[^0-9]", "", std)[:2])
 
@@ -134,8 +189,8 @@ def profile_ok(eff: typing.Mapping[str, typing.Any]) -> bool:
     if eff["ctor_convention"] == "default":
         return True
     return (
-        eff["allocator_include"] == MR_INC
-        and eff["allocator_type"] == PMR_ALLOC
+        _n(eff["allocator_include"]) == MR_INC
+        and _n(eff["allocator_type"]) == PMR_ALLOC
         and eff["allocator_is_default_constructible"] is True
         and std_number(eff["std"]) >= 17
     )
@@ -145,9 +200,9 @@ def vla_ok(lang: str, eff: typing.Mapping[str, typing.Any]) -> bool:
     """Can the type with variable-length arrays be expressed under these options?"""
     if lang == "c":
         return True
-    if not profile_ok(eff) or eff["variable_array_type_include"] != VEC_INC:
+    if not profile_ok(eff) or _n(eff["variable_array_type_include"]) != VEC_INC:
         return False
-    return (eff["ctor_convention"], eff["variable_array_type_template"]) in (("default", VEC), (TRAILING, VECA))
+    return (eff["ctor_convention"], _n(eff["variable_array_type_template"])) in (("default", _n(VEC)), (TRAILING, _n(VECA)))
 
 
 class OptSet(typing.NamedTuple):
@@ -172,7 +227,12 @@ def _short(v: typing.Any) -> str:
     }  # fmt: skip
     if isinstance(v, bool):
         return "1" if v else "0"
-    return table.get(v, str(v).replace("+", "p"))
+    if v in table:
+        return table[v]
+    v = str(v)
+    if re.fullmatch(r"[A-Za-z0-9+_-]+", v):
+        return v.replace("+", "p")
+    return "h" + hashlib.sha256(v.encode()).hexdigest()[:10]
 
 
 def make_set(lang: str, request: typing.Mapping[str, typing.Any], tag: str = "") -> OptSet:
@@ -295,6 +355,22 @@ def build_space() -> Space:
     for x, y in ((short, centre_sets["c++17"]), (centre_sets["c++17"], short)):
         sp.add("cpp.shorthand_spelling", x, y, True)
 
+    # near-collision value families of the free-form string options (core): every ordered pair inside a group
+    def family(name: str, sets: typing.List[OptSet]) -> None:
+        for a in sets:
+            for b in sets:
+                sp.add(name if a is not b else name + ".identical", a, b, True)
+
+    for group in C_CAST_FAMILY:
+        family("c.cast_format_family", [sp.s("c", dict(DOC_DEFAULTS["c"], cast_format=v)) for v in group])
+    prof14 = {k: CENTRES["c++14"][k] for k in PROFILE_KEYS}
+    for group in CPP_CAST_FAMILY:
+        family("cpp.cast_format_family", [cpp(dict(dflt_common, cast_format=v), prof14) for v in group])
+    profpmr = {k: CENTRES["c++17-pmr"][k] for k in PROFILE_KEYS}
+    for opt, groups in CPP_PROFILE_STRING_FAMILIES:
+        for group in groups:
+            family("cpp.string_option_family", [cpp(dflt_common, dict(profpmr, **{opt: v})) for v in group])
+
     # T1: full cross product of the common options at two profiles
     for cname in ("c++14", "c++17-pmr"):
         prof = {k: CENTRES[cname][k] for k in PROFILE_KEYS}
@@ -355,7 +431,12 @@ def prepare(root: pathlib.Path) -> None:
     for lang, ext, hext, fmt in (("c", "c", "h", "#include <ns/{}.{}>\n"), ("cpp", "cpp", "hpp", '#include "ns/{}.{}"\n')):
         for with_vla in (False, True):
             hs = ["Outer_1_0"] + ([HEADER_VLA] if with_vla else []) + ["Inner_1_0"]
-            (tu / f"tu_{int(with_vla)}.{ext}").write_text("".join(fmt.format(h, hext) for h in hs))
+            use = (
+                "static const float c17_use_cast_format = ns_Inner_1_0_F;\n"
+                if lang == "c"
+                else "static const float c17_use_cast_format = ns::Inner_1_0::F;\n"
+            )
+            (tu / f"tu_{int(with_vla)}.{ext}").write_text("".join(fmt.format(h, hext) for h in hs) + use)
 
 
 def generate_set(s: OptSet) -> str:
@@ -422,7 +503,7 @@ def compile_pair(root: pathlib.Path, lang: str, a_key: str, b_key: str, std: str
     else:
         cmd = ["g++", "-x", "c++", f"-std={std}"]
         tu = root / "tu" / f"tu_{int(with_vla)}.cpp"
-    cmd += ["-fsyntax-only", "-DNUNAVUT_ASSERT(x)=((void)(x))", "-I", str(sup), "-I", str(typ), str(tu)]
+    cmd += ["-fsyntax-only", "-DNUNAVUT_ASSERT(x)=((void)(x))"] + CAST_MACROS + ["-I", str(sup), "-I", str(typ), str(tu)]
     env = dict(os.environ, LC_ALL="C", LANG="C")
     try:
         p = subprocess.run(cmd, stdout=subprocess.PIPE, stderr=subprocess.STDOUT, text=True, timeout=300, env=env, check=False)
@@ -554,6 +635,181 @@ def dict_diff(a: OptSet, b: OptSet, side: int) -> dict:
     return {k: src[k] for k in KEYS[a.lang] if ea[k] != eb[k]}
 
 
+# --------------------------------------------------------------------------------------------------------- emitted values
+VALUE_ALPHABET = ["a", "A", "b", " ", "\t", "_", "0", "("]
+VALUE_INTS = [0, 1, 2, 7, 123, 65535, 2147483647, 2147483648, 4294967295]
+EMIT_RE = {
+    "c": (
+        re.compile(r"^#define NUNAVUT_SUPPORT_LANGUAGE_OPTION_(\w+) (.*)$", re.M),
+        re.compile(r"^static_assert\( NUNAVUT_SUPPORT_LANGUAGE_OPTION_(\w+) == (.*),$", re.M),
+    ),
+    "cpp": (
+        re.compile(r"^constexpr std::uint32_t (\w+) = (.*);$", re.M),
+        re.compile(r"^static_assert\( nunavut::support::options::(\w+) == (.*),$", re.M),
+    ),
+}
+
+
+def documented_strings() -> typing.List[str]:
+    vals: typing.List[typing.Any] = ["c11", "c++17-pmr", "cetl++14-17", '"cetl/pf17/sys/memory_resource.hpp"']
+    for dom in COMMON_DOMAIN.values():
+        vals += [v for d in dom for v in d]
+    vals += [v for d in PROFILE_PRODUCT_DOMAIN for v in d] + list(CETL_SINGLE_VALUES.values())
+    for groups in [C_CAST_FAMILY, CPP_CAST_FAMILY] + [g for _, g in CPP_PROFILE_STRING_FAMILIES]:
+        vals += [v for g in groups for v in g]
+    return [v for v in vals if isinstance(v, str)]
+
+
+def value_strings(max_len: int) -> typing.Tuple[typing.List[str], int]:
+    """All strings over VALUE_ALPHABET up to max_len + documented/family values, without duplicates and without strings
+    that genuinely share a CRC-32 with an earlier one (the documented value function is a 32 bit checksum, so such pairs
+    may exist on correct code; none does in the sets used here). Returns (strings, dropped)."""
+    out: typing.List[str] = []
+    seen: typing.Set[str] = set()
+    crcs: typing.Set[int] = set()
+    dropped = 0
+    cands = ["".join(t) for n in range(max_len + 1) for t in itertools.product(VALUE_ALPHABET, repeat=n)]
+    for v in cands + documented_strings():
+        if v in seen:
+            continue
+        seen.add(v)
+        c = zlib.crc32(v.encode("utf-8"))
+        if c in crcs:
+            dropped += 1
+            continue
+        crcs.add(c)
+        out.append(v)
+    return out, dropped
+
+
+def emit_values(lang: str, strings: typing.Sequence[str], out: pathlib.Path, ns_dir: pathlib.Path) -> dict:
+    """Hands the strings (and bools / ints) to the real generator as additional language options x<i> / yb<i> / yi<i> and
+    reads back what the support header and a type header emit for them: key -> [support side, type side]."""
+    from vf import gen
+
+    opts: typing.Dict[str, typing.Any] = {f"x{i}": v for i, v in enumerate(strings)}
+    opts.update({"yb0": False, "yb1": True})
+    opts.update({f"yi{i}": n for i, n in enumerate(VALUE_INTS)})
+    shutil.rmtree(out, ignore_errors=True)
+    gen.reset_process_state()
+    gen.generate(lang, ns_dir, out, options=opts, types=_TYPES.get("all"))
+    ext = "h" if lang == "c" else "hpp"
+    sup = (out / "nunavut" / "support" / f"serialization.{ext}").read_text()
+    typ = (out / "ns" / f"Inner_1_0.{ext}").read_text()
+    rs, rt = EMIT_RE[lang]
+    ds = {k.lower(): v.strip() for k, v in rs.findall(sup)}
+    dt = {k.lower(): v.strip() for k, v in rt.findall(typ)}
+    return {k: [ds.get(k), dt.get(k)] for k in opts}
+
+
+def _emit_cli() -> None:
+    """child process entry (other PYTHONHASHSEED): argv = lang, strings.json, out dir, dsdl ns dir"""
+    lang, sfile, out, ns_dir = sys.argv[1:5]
+    strings = json.loads(pathlib.Path(sfile).read_text())
+    print("C17-VALUES " + json.dumps(emit_values(lang, strings, pathlib.Path(out), pathlib.Path(ns_dir))))
+
+
+def _emit_job(job: typing.Tuple[str, typing.Optional[int], str, str]) -> dict:
+    lang, seed, sfile, root = job
+    out = pathlib.Path(root) / "values" / f"{lang}_{seed}"
+    ns_dir = pathlib.Path(root) / "dsdl" / "ns"
+    if seed is None:
+        return emit_values(lang, json.loads(pathlib.Path(sfile).read_text()), out, ns_dir)
+    code = "import sys; sys.path.insert(0, sys.argv.pop(1)); from vf.checks import c17; c17._emit_cli()"
+    env = dict(os.environ, PYTHONHASHSEED=str(seed))
+    p = subprocess.run(
+        [sys.executable, "-c", code, str(VERIF), lang, sfile, str(out), str(ns_dir)],
+        stdout=subprocess.PIPE, stderr=subprocess.PIPE, text=True, env=env, timeout=600, check=False,
+    )  # fmt: skip
+    lines = [l for l in p.stdout.splitlines() if l.startswith("C17-VALUES ")]
+    if p.returncode != 0 or not lines:
+        raise HarnessError(f"value emission child failed ({p.returncode}): {p.stderr[-1500:]}")
+    return json.loads(lines[-1][len("C17-VALUES "):])
+
+
+def relation(a: str, b: str) -> str:
+    if _n(a) == _n(b):
+        return "white_space_only"
+    if a.lower() == b.lower():
+        return "case_only"
+    if _n(a).lower() == _n(b).lower():
+        return "white_space_and_case_only"
+    if sorted(a) == sorted(b):
+        return "same_characters_other_order"
+    if len(a) == len(b):
+        return "same_length"
+    if a.startswith(b) or b.startswith(a):
+        return "prefix"
+    if a.endswith(b) or b.endswith(a):
+        return "suffix"
+    return "other"
+
+
+def check_values(ctx: typing.Optional[Ctx], root: pathlib.Path, strings: typing.Sequence[str], seeds: typing.Sequence[int]) -> dict:
+    """Returns statistics; reports violations into ctx (or collects them under 'violations' when ctx is None)."""
+    found: typing.List[tuple] = []
+
+    def viol(sig: dict, case: dict, what: str) -> None:
+        found.append((sig, case, what))
+        if ctx is not None:
+            ctx.violation(sig, case, what)
+
+    (root / "values").mkdir(parents=True, exist_ok=True)
+    sfile = root / "values" / "strings.json"
+    sfile.write_text(json.dumps(list(strings)))
+    jobs = [(lang, seed, str(sfile), str(root)) for lang in ("c", "cpp") for seed in [None] + list(seeds)]
+    results = ctx.pool_map(_emit_job, jobs) if ctx is not None else [_emit_job(j) for j in jobs]
+    stats = {"strings": len(strings), "processes_per_language": 1 + len(seeds), "values_compared": 0, "distinct_values": {}}
+    for (lang, seed, _, _), res in zip(jobs, results):
+        if seed is None:
+            base = res
+            by_value: typing.Dict[str, str] = {}
+            for i, v in enumerate(strings):
+                sup, typ = base[f"x{i}"]
+                stats["values_compared"] += 1
+                case = {"mode": "values", "lang": lang, "strings": [v]}
+                if sup is None or typ is None:
+                    side = "support_header" if sup is None else "type_header"
+                    viol({"lang": lang, "kind": "value_not_emitted", "side": side}, case,
+                         f"{lang}: additional string option with value {v!r} is not emitted in the {side}")  # fmt: skip
+                    continue
+                if sup != typ:
+                    viol({"lang": lang, "kind": "value_differs_between_support_and_type_header"}, case,
+                         f"{lang}: option value {v!r} is published as {sup} by the support header but asserted as {typ}")  # fmt: skip
+                other = by_value.setdefault(typ, v)
+                if other != v:
+                    rel = relation(other, v)
+                    viol({"lang": lang, "kind": "value_collision", "relation": rel},
+                         {"mode": "values", "lang": lang, "strings": [other, v]},
+                         f"{lang}: option values {other!r} and {v!r} ({rel}) are both emitted as {typ}: a mismatch between "
+                         "them cannot be detected by the static assertion")  # fmt: skip
+            stats["distinct_values"][lang] = len(by_value)
+            want = {"yb0": "0", "yb1": "1", **{f"yi{i}": str(n) for i, n in enumerate(VALUE_INTS)}}
+            for k, w in want.items():
+                for side, got in zip(("support_header", "type_header"), base[k]):
+                    stats["values_compared"] += 1
+                    try:
+                        ok = got is not None and int(got.rstrip("UuLl")) == int(w)
+                    except ValueError:
+                        ok = False
+                    if not ok:
+                        viol({"lang": lang, "kind": "bool_int_not_identity", "type": "bool" if k.startswith("yb") else "int"},
+                             {"mode": "values", "lang": lang, "strings": []},
+                             f"{lang}: {'bool' if k.startswith('yb') else 'int'} option value {w} is emitted as {got!r} in the {side}")  # fmt: skip
+        else:
+            diff = [k for k in base if base[k] != res.get(k)]
+            stats["values_compared"] += len(base)
+            if diff:
+                i = int(diff[0][1:]) if diff[0].startswith("x") else -1
+                v = strings[i] if i >= 0 else diff[0]
+                viol({"lang": lang, "kind": "value_differs_between_processes"},
+                     {"mode": "values", "lang": lang, "strings": [v] if i >= 0 else []},
+                     f"{lang}: {len(diff)} emitted assertion value(s) differ under PYTHONHASHSEED={seed}, e.g. {v!r}: "
+                     f"{base[diff[0]]} vs {res.get(diff[0])}")  # fmt: skip
+    stats["violations"] = found
+    return stats
+
+
 def probe_c_std(root: pathlib.Path, sp: Space) -> dict:
     """Statistic only (the statement speaks about documented options of properties.yaml; C has no `std` there, but
     `--language-standard c11` injects one): what happens when only one side was generated with it."""
@@ -671,6 +927,17 @@ def run(ctx: Ctx) -> int:
 
     ctx.stats["probe_c_option_std_c11_not_in_properties_yaml"] = probe_c_std(root, sp)
 
+    # ---- the emitted assertion value itself: injective, process independent, bool/int identity
+    vmax = 4 if ctx.thorough else 3
+    strings, dropped = value_strings(vmax)
+    t_val = time.time()
+    vstats = check_values(ctx, root, strings, seeds=(1, 2))
+    vstats.pop("violations")
+    vstats.update(max_len=vmax, alphabet=VALUE_ALPHABET, dropped_genuine_crc32_collisions=dropped, wall_s=round(time.time() - t_val, 1))
+    ctx.stats["emitted_value_check"] = vstats
+    if vstats["strings"] < 500 or min(vstats["distinct_values"].values(), default=0) < 2:
+        raise HarnessError(f"emitted value check is vacuous: {vstats}")
+
     # ---- vacuity: every option of both languages must have been the single differing option of an evaluated pair
     exercised = {(j.lang, j.diff[0]) for j in jobs if len(j.diff) == 1}
     wanted = {(lang, k) for lang in ("c", "cpp") for k in KEYS[lang]}
@@ -682,21 +949,27 @@ def run(ctx: Ctx) -> int:
 
     n_c = sum(1 for j in jobs if j.lang == "c")
     cov = {
-        "evaluations": len(jobs),
+        "evaluations": len(jobs) + vstats["values_compared"],
+        "compiles": len(jobs),
+        "emitted_values_compared": vstats["values_compared"],
         "distinct_nontrivial": len(nontrivial),
         "distinct_outcomes": len(outcomes),
         "identical_pairs": n_ident,
         "rule": "one evaluation = one gcc/g++ -fsyntax-only run of a TU including the type headers generated with "
-        "option set B against the support header generated with option set A; non-trivial = distinct ordered pair "
-        "(lang, A, B) with A != B; outcome = (lang, differing options, options named by failing static assertions, "
-        "rejected?, verdict)",
+        "option set B against the support header generated with option set A, or one comparison of the value the real "
+        "templates emit for one additional option value (support side vs type side / vs all other strings / vs another "
+        "process); non-trivial = distinct ordered pair (lang, A, B) with A != B; outcome = (lang, differing options, "
+        "options named by failing static assertions, rejected?, verdict)",
         "bound_completed": (
             f"c: all {n_c} ordered pairs of the 48 option sets (3x2x2x2x2); cpp: {len(jobs) - n_c} of "
             f"{space_total - n_c} compiles of the structured space (4 documented standards/shorthands x every "
             "single-option neighbour incl. single cetl values, 48x48 common options at c++14 and c++17-pmr, every "
             "single-option difference inside the 224-profile product, 48x48 allocator sub-lattice, centre pairs x "
             "common options differing in <=1 option); 3 types (struct, sealed union nesting it, delimited type with "
-            "variable-length arrays)"
+            "variable-length arrays); near-collision families of cast_format (c: 14 values, cpp: 4 groups) and of "
+            "the C++ array/allocator string options, all ordered pairs per group; emitted assertion values of "
+            f"{vstats['strings']} strings (alphabet {''.join(VALUE_ALPHABET)!r}, length <= {vmax}, + documented and family "
+            "values) x {c, cpp} x 3 processes (PYTHONHASHSEED 0, 1, 2)"
         ),
         "exhaustive": bool(ctx.thorough),
     }
@@ -715,6 +988,10 @@ def run(ctx: Ctx) -> int:
             "a pair differing in `std` is compiled under the newer standard (and, when std is the only difference, "
             "also under the older one); the DSDL types contain no floating point fields",
             "C option `std` (only reachable through --language-standard c11, not an option of properties.yaml) is not enumerated",
+            "free-form string options: family values are harness-chosen valid spellings (helper macros XCAST/xcast/YCAST/"
+            "NNVG_* are defined on every command line); strings of the injectivity check are handed over as additional "
+            "language options x<i> (options may be invented by users, docs/templates.rst) and are not compiled; pairs of "
+            "strings with a genuinely equal CRC-32 would be dropped from the set (none in the enumerated sets)",
         ],
         min_outcomes=("distinct_outcomes", 30),
     )
@@ -724,6 +1001,15 @@ def replay(ctx: Ctx, case: dict) -> int:
     root = ctx.scratch / "c17"
     root.mkdir(parents=True, exist_ok=True)
     prepare(root)
+    if case.get("mode") == "values":
+        strings = list(case["strings"]) or [""]
+        st = check_values(None, root, strings, seeds=(1,))
+        for lang in ("c", "cpp"):
+            print(lang, emit_values(lang, strings, root / "values" / "show", root / "dsdl" / "ns"))
+        bad = [v for v in st["violations"] if v[0]["lang"] == case["lang"]]
+        for _, _, what in bad:
+            print("VIOLATION:", what)
+        return 1 if bad else 0
     lang = case["lang"]
     a = make_set(lang, case["support_options"], "A")
     b = make_set(lang, case["type_options"], "B")
